@@ -16,6 +16,7 @@ import (
 	"fmt"
 	"os"
 	"path/filepath"
+	"runtime/debug"
 	"sort"
 	"time"
 
@@ -149,6 +150,26 @@ type corruption struct {
 	Kind string // "bitflip" "zero-run" "invert-run" "bitflip2"
 	Off  int    // bit index (bitflip), byte offset (runs)
 	Len  int    // run length in bytes; second bit index for bitflip2
+	// AllBackups: combine with every backup situation (otherwise only with "no .cow file"). Quick tier:
+	// see quickAllBackups; thorough tier: always true.
+	AllBackups bool
+}
+
+// quickAllBackups selects, for the quick tier, the single-bit flips that are combined with ALL backup
+// situations (every flip is always combined with "no backup"): one bit of every byte (bit number = byte
+// offset mod 8, so all bit positions occur), every bit of the target record (slot 3), of the displaced
+// record (slot 0), of the last record (slot 65) and of the CRC field, and every bit of the first and last
+// byte of each record.
+func quickAllBackups(bit int) bool {
+	byteOff := bit / 8
+	if bit%8 == byteOff%8 {
+		return true
+	}
+	if byteOff >= crcOff {
+		return true
+	}
+	slot, inRec := byteOff/recSz, byteOff%recSz
+	return slot == 3 || slot == 0 || slot == 65 || inRec == 0 || inRec == recSz-1
 }
 
 func (c corruption) apply(good []byte) []byte {
@@ -193,16 +214,16 @@ func (c corruption) region(slotOfA int, good []byte) string {
 func corruptions(thorough bool) []corruption {
 	var out []corruption
 	for bit := 0; bit < blockSz*8; bit++ {
-		out = append(out, corruption{"bitflip", bit, 0})
+		out = append(out, corruption{"bitflip", bit, 0, thorough || quickAllBackups(bit)})
 	}
 	runs := func(l int) {
 		for off := 0; off+l <= blockSz; off += l {
-			out = append(out, corruption{"zero-run", off, l}, corruption{"invert-run", off, l})
+			out = append(out, corruption{"zero-run", off, l, true}, corruption{"invert-run", off, l, true})
 		}
 	}
 	runs(2)
-	runs(62) // record-aligned: 66 records
-	out = append(out, corruption{"zero-run", crcOff, 4}, corruption{"invert-run", crcOff, 4}) // the CRC field itself
+	runs(62)                                                                                              // record-aligned: 66 records
+	out = append(out, corruption{"zero-run", crcOff, 4, true}, corruption{"invert-run", crcOff, 4, true}) // the CRC field itself
 	runs(512)
 	if thorough {
 		runs(1)
@@ -210,16 +231,16 @@ func corruptions(thorough bool) []corruption {
 		runs(8)
 		runs(1024)
 		runs(2048)
-		out = append(out, corruption{"invert-run", 0, blockSz}, corruption{"zero-run", 0, crcOff}, corruption{"zero-run", 1, blockSz - 1})
+		out = append(out, corruption{"invert-run", 0, blockSz, true}, corruption{"zero-run", 0, crcOff, true}, corruption{"zero-run", 1, blockSz - 1, true})
 		// double flips: one bit of the target record (slot 3) or of the CRC + one bit of the CRC
 		for i := 3 * recSz * 8; i < 4*recSz*8; i++ {
 			for j := crcOff * 8; j < blockSz*8; j++ {
-				out = append(out, corruption{"bitflip2", i, j})
+				out = append(out, corruption{"bitflip2", i, j, true})
 			}
 		}
 		for i := crcOff * 8; i < blockSz*8; i++ {
 			for j := i + 1; j < blockSz*8; j++ {
-				out = append(out, corruption{"bitflip2", i, j})
+				out = append(out, corruption{"bitflip2", i, j, true})
 			}
 		}
 	}
@@ -395,9 +416,11 @@ func sameHandle(h sop.Handle, r rawHandle) bool {
 
 func work(run *ev.Run, cs []corruption, dir string) {
 	detuuid.Reset(23)
+	debug.SetGCPercent(800)
 	e := setup(dir)
 	defer os.RemoveAll(dir)
 	sampled := 0
+	reported := map[string]bool{}
 	for _, c := range cs {
 		img := c.apply(e.good)
 		run.Add("corruptions", 1)
@@ -416,6 +439,9 @@ func work(run *ev.Run, cs []corruption, dir string) {
 		run.Add("corruptions_in_"+region, 1)
 		corruptionViolated := false
 		for cow := range cowNames {
+			if cow > 0 && !c.AllBackups {
+				break
+			}
 			run.Add("distinct_nontrivial", 1)
 			for op := range opNames {
 				in := e.rw
@@ -427,18 +453,23 @@ func work(run *ev.Run, cs []corruption, dir string) {
 				hs, err := call(in, op)
 				after := e.current()
 				run.Add("evaluations", 1)
-				viol := func(kind, detail string) {
+				viol := func(kind string, detail func() string) {
 					corruptionViolated = true
 					run.Add("violating_calls", 1)
 					run.Add("violating_calls_"+kind, 1)
+					sig := kind + "|op=" + opNames[op] + "|cow=" + cowNames[cow]
+					if reported[sig] {
+						return
+					}
+					reported[sig] = true
 					run.Violate(ev.Violation{
-						Sig:    fmt.Sprintf("%s|op=%s|cow=%s", kind, opNames[op], cowNames[cow]),
-						Detail: fmt.Sprintf("%s: block %d of %s-1.reg corrupted by %+v (damage starts in: %s), backup file: %s, call %s: %s", kind, blockNo, table, c, region, cowNames[cow], opNames[op], detail),
+						Sig:    sig,
+						Detail: fmt.Sprintf("%s: block %d of %s-1.reg corrupted by %+v (damage starts in: %s), backup file: %s, call %s: %s", kind, blockNo, table, c, region, cowNames[cow], opNames[op], detail()),
 						Replay: map[string]any{"corruption": c, "cow": cowNames[cow], "op": opNames[op], "region": region},
 					})
 				}
 				if errors.Is(err, context.DeadlineExceeded) {
-					viol("call-blocked", "the call did not return within the 20 s hang guard")
+					viol("call-blocked", func() string { return "the call did not return within the 20 s hang guard" })
 					e.reopen()
 					continue
 				}
@@ -447,19 +478,21 @@ func work(run *ev.Run, cs []corruption, dir string) {
 					changed := !bytes.Equal(after, img)
 					switch {
 					case err == nil && len(hs) > 0:
-						viol("lookup-served-handles-from-corrupt-block", fmt.Sprintf("returned %d handle(s), first %+v, and no error", len(hs), hs[0]))
+						viol("lookup-served-handles-from-corrupt-block", func() string { return fmt.Sprintf("returned %d handle(s), first %+v, and no error", len(hs), hs[0]) })
 					case err == nil && !isWrite(op):
-						viol("lookup-no-error-on-corrupt-block", "returned no error (and no handle)")
+						viol("lookup-no-error-on-corrupt-block", func() string { return "returned no error (and no handle)" })
 					case err == nil && changed && blockCRCOK(after):
-						viol("write-overwrote-corrupt-block-with-fresh-checksum", "returned no error; the block on disk was rewritten and now carries a VALID checksum over the corrupted content")
+						viol("write-overwrote-corrupt-block-with-fresh-checksum", func() string {
+							return "returned no error; the block on disk was rewritten and now carries a VALID checksum over the corrupted content"
+						})
 					case err == nil && changed:
-						viol("write-overwrote-corrupt-block", "returned no error; the block on disk was rewritten")
+						viol("write-overwrote-corrupt-block", func() string { return "returned no error; the block on disk was rewritten" })
 					case err == nil:
-						viol("write-no-error-on-corrupt-block", "returned no error")
+						viol("write-no-error-on-corrupt-block", func() string { return "returned no error" })
 					case changed:
-						viol("error-but-corrupt-block-rewritten", fmt.Sprintf("returned error %q but the block bytes on disk changed", err))
+						viol("error-but-corrupt-block-rewritten", func() string { return fmt.Sprintf("returned error %q but the block bytes on disk changed", err) })
 					case len(hs) > 0:
-						viol("error-but-handles-returned", fmt.Sprintf("returned error %q together with %d handle(s)", err, len(hs)))
+						viol("error-but-handles-returned", func() string { return fmt.Sprintf("returned error %q together with %d handle(s)", err, len(hs)) })
 					}
 				} else {
 					base := e.good
@@ -469,7 +502,9 @@ func work(run *ev.Run, cs []corruption, dir string) {
 					want := expectedAfter(base, op)
 					switch {
 					case err != nil:
-						viol("valid-backup-not-used", fmt.Sprintf("returned error %q although a valid backup of the block exists", err))
+						viol("valid-backup-not-used", func() string {
+							return fmt.Sprintf("returned error %q although a valid backup of the block exists", err)
+						})
 					case !isWrite(op):
 						ids := []sop.UUID{idA}
 						if op == 1 {
@@ -483,15 +518,21 @@ func work(run *ev.Run, cs []corruption, dir string) {
 							}
 						}
 						if !ok {
-							viol("valid-backup-wrong-handles-served", fmt.Sprintf("returned %+v, the backup holds %+v", hs, exp))
+							viol("valid-backup-wrong-handles-served", func() string { return fmt.Sprintf("returned %+v, the backup holds %+v", hs, exp) })
 						} else if op != 2 && !bytes.Equal(after, want) {
-							viol("valid-backup-block-not-restored", "lookup served the backup's handles but the block on disk is not the backup image")
+							viol("valid-backup-block-not-restored", func() string {
+								return "lookup served the backup's handles but the block on disk is not the backup image"
+							})
 						} else if op == 2 && !bytes.Equal(after, want) && !bytes.Equal(after, img) {
-							viol("valid-backup-block-not-restored", "read-only lookup left a block that is neither the corrupted nor the backup image")
+							viol("valid-backup-block-not-restored", func() string {
+								return "read-only lookup left a block that is neither the corrupted nor the backup image"
+							})
 						}
 					default:
 						if !bytes.Equal(after, want) {
-							viol("valid-backup-wrong-block-after-write", fmt.Sprintf("block after the call differs from backup image + the requested change (checksum valid: %v)", blockCRCOK(after)))
+							viol("valid-backup-wrong-block-after-write", func() string {
+								return fmt.Sprintf("block after the call differs from backup image + the requested change (checksum valid: %v)", blockCRCOK(after))
+							})
 						}
 					}
 				}
@@ -504,9 +545,9 @@ func work(run *ev.Run, cs []corruption, dir string) {
 			run.Add("corruptions_with_violation", 1)
 			run.Add("corruptions_with_violation_in_"+region, 1)
 		}
-		if sampled < 2 {
+		if sampled < 1 && (region == "target-record" || region == "crc-field") {
 			sampled++
-			run.Sample(map[string]any{"corruption": c, "region": region, "backup_situations": cowNames, "calls": opNames})
+			run.Sample(map[string]any{"corruption": fmt.Sprintf("%s off=%d len=%d", c.Kind, c.Off, c.Len), "region": region, "all_backup_situations": c.AllBackups, "any_call_violated": corruptionViolated})
 		}
 		// keep the folder to the one segment file (+ backup)
 		if ents, _ := os.ReadDir(e.tdir); len(ents) > 2 {
@@ -557,7 +598,7 @@ func main() {
 	run.Set("corruption_classes", ks)
 	run.Set("backup_situations", cowNames)
 	run.Set("calls", opNames)
-	run.Set("rule", "base block written through the real registry: ids A(slot 3) B(collides with A, slot 0) C(10) E(30) D(65, adjacent to the CRC); corruption = every single-bit flip of the 4096-byte block (32768), zeroed and inverted runs of 2, 62 (record-aligned) and 512 bytes at every aligned offset, the 4-byte CRC field zeroed/inverted [thorough: also runs of 1,4,8,1024,2048 bytes, whole-block inversions, and all double flips (target-record bit | CRC bit) x CRC bit]; x backup file {none, empty, 4096 bytes with bad CRC, 4095 bytes, valid = pre-corruption image, valid = older image}; x calls {Get(A), Get(all five), Get(A) on a read-only registry, Update(A), UpdateNoLocks(A), Add(new id of that block), Remove(A)}; the corrupted image is written directly into the segment file before EVERY call and the L2 cache is cleared. distinct_nontrivial = (corruption, backup situation) pairs where the image differs from the good one, is not all-zero and fails the harness' CRC32")
+	run.Set("rule", "base block written through the real registry: ids A(slot 3) B(collides with A, slot 0) C(10) E(30) D(65, adjacent to the CRC); corruption = every single-bit flip of the 4096-byte block (32768; quick tier: every flip with backup situation none, and with ALL backup situations the flips selected by quickAllBackups = one bit of every byte + every bit of slots 0, 3, 65, of the CRC field and of the first/last byte of every record; thorough tier: every flip with every situation), zeroed and inverted runs of 2, 62 (record-aligned) and 512 bytes at every aligned offset, the 4-byte CRC field zeroed/inverted [thorough: also runs of 1,4,8,1024,2048 bytes, whole-block inversions, and all double flips (target-record bit | CRC bit) x CRC bit]; x backup file {none, empty, 4096 bytes with bad CRC, 4095 bytes, valid = pre-corruption image, valid = older image}; x calls {Get(A), Get(all five), Get(A) on a read-only registry, Update(A), UpdateNoLocks(A), Add(new id of that block), Remove(A)}; the corrupted image is written directly into the segment file before EVERY call and the L2 cache is cleared. distinct_nontrivial = (corruption, backup situation) pairs where the image differs from the good one, is not all-zero and fails the harness' CRC32")
 	run.Assumption("an all-zero block is 'never written' by design (marshalData stores empty blocks as zeros, unmarshalData accepts them): a corruption producing an all-zero block is out of scope (none of the enumerated ones does); corruptions that CRC32 cannot detect are skipped and counted (none occurs: CRC32 detects all single-bit, double-bit and <=32-bit-burst errors; longer enumerated bursts are checked with the harness' own CRC)")
 	run.Assumption("'no valid backup' = no .cow file, an empty one, one of the wrong size, or one whose own checksum fails; then every call must return an error, return no handle, and leave the 4096 bytes on disk exactly as corrupted. 'valid backup' = a 4096-byte .cow with a good checksum; then the call must behave as on the backup image and leave backup image + requested change on disk (a read-only registry may leave the corrupted block)")
 	run.Assumption("only the segment-1 block of the ids is corrupted; ids whose block is intact, overflow segments, I/O errors and concurrent writers are not part of this check (C22 covers torn writes)")
